@@ -1318,6 +1318,93 @@ def _fuse_row_views(fn):
     return changed
 
 
+def _merge_dict_item_stores(stmts):
+    """`d = {"a": x}` directly followed by `d["b"] = y`, `d["c"] = z` (new constant keys, values not reading d): one display.
+    Recursive over nested blocks; also applied to function bodies."""
+    i = 0
+    while i < len(stmts):
+        s = stmts[i]
+        for fld in ("body", "orelse", "finalbody"):
+            blk = getattr(s, fld, None)
+            if isinstance(blk, list):
+                _merge_dict_item_stores(blk)
+        if isinstance(s, ast.Try):
+            for h in s.handlers:
+                _merge_dict_item_stores(h.body)
+        if isinstance(s, ast.Assign) and len(s.targets) == 1 and isinstance(s.targets[0], ast.Name) and isinstance(s.value, ast.Dict) \
+                and all(isinstance(k, ast.Constant) for k in s.value.keys):
+            name = s.targets[0].id
+            while i + 1 < len(stmts):
+                nx = stmts[i + 1]
+                if not (isinstance(nx, ast.Assign) and len(nx.targets) == 1 and isinstance(nx.targets[0], ast.Subscript)
+                        and isinstance(nx.targets[0].value, ast.Name) and nx.targets[0].value.id == name
+                        and isinstance(nx.targets[0].slice, ast.Constant)
+                        and not any(isinstance(n, ast.Name) and n.id == name for n in ast.walk(nx.value))
+                        and nx.targets[0].slice.value not in [k.value for k in s.value.keys]):
+                    break
+                s.value.keys.append(nx.targets[0].slice)
+                s.value.values.append(nx.value)
+                del stmts[i + 1]
+        i += 1
+
+
+class _FoldDisplays(ast.NodeTransformer):
+    """Spelled-out container constructions are read as the displays they equal:
+    `dict(a=x, b=y)` -> `{"a": x, "b": y}`;  `tuple(f(i) for i in range(3))` -> `(f(0), f(1), f(2))`;  `(a, b) + (c,)` -> `(a, b, c)`;
+    `g(*tuple(xs))` / `g(*list(xs))` -> `g(*xs)`.  (Builtins `dict`, `tuple`, `list`, `range` are assumed not to be shadowed; the
+    package does not shadow them.)"""
+
+    def visit_Call(self, c):
+        self.generic_visit(c)
+        if isinstance(c.func, ast.Name) and c.func.id == "dict" and not c.args and c.keywords and all(k.arg for k in c.keywords):
+            return ast.copy_location(ast.Dict(keys=[ast.Constant(value=k.arg) for k in c.keywords], values=[k.value for k in c.keywords]), c)
+        if isinstance(c.func, ast.Name) and c.func.id in ("tuple", "list") and len(c.args) == 1 and not c.keywords \
+                and isinstance(c.args[0], (ast.GeneratorExp, ast.ListComp)) and len(c.args[0].generators) == 1:
+            g = c.args[0].generators[0]
+            it = g.iter
+            if isinstance(g.target, ast.Name) and not g.ifs and not g.is_async and isinstance(it, ast.Call) and isinstance(it.func, ast.Name) \
+                    and it.func.id == "range" and not it.keywords and 1 <= len(it.args) <= 2 \
+                    and all(isinstance(a, ast.Constant) and isinstance(a.value, int) and not isinstance(a.value, bool) for a in it.args):
+                vals = list(range(*[a.value for a in it.args]))
+                if len(vals) <= 8:
+                    elts = []
+                    for v in vals:
+                        e = copy.deepcopy(c.args[0].elt)
+
+                        class S(ast.NodeTransformer):
+                            def visit_Name(self, n):
+                                if n.id == g.target.id and isinstance(n.ctx, ast.Load):
+                                    return ast.copy_location(ast.Constant(value=v), n)
+                                return n
+                        elts.append(S().visit(e))
+                    mk = ast.Tuple if c.func.id == "tuple" else ast.List
+                    return ast.copy_location(mk(elts=elts, ctx=ast.Load()), c)
+        # g(*(a, b), c) -> g(a, b, c)
+        if any(isinstance(a, ast.Starred) and isinstance(a.value, (ast.Tuple, ast.List)) and not any(isinstance(e, ast.Starred) for e in a.value.elts)
+               for a in c.args):
+            na = []
+            for a in c.args:
+                if isinstance(a, ast.Starred) and isinstance(a.value, (ast.Tuple, ast.List)) and not any(isinstance(e, ast.Starred) for e in a.value.elts):
+                    na.extend(a.value.elts)
+                else:
+                    na.append(a)
+            c.args = na
+        # g(*tuple(xs)) -> g(*xs)
+        for i_, a in enumerate(c.args):
+            if isinstance(a, ast.Starred) and isinstance(a.value, ast.Call) and isinstance(a.value.func, ast.Name) \
+                    and a.value.func.id in ("tuple", "list") and len(a.value.args) == 1 and not a.value.keywords \
+                    and not isinstance(a.value.args[0], (ast.GeneratorExp, ast.ListComp)):
+                a.value = a.value.args[0]
+        return c
+
+    def visit_BinOp(self, b):
+        self.generic_visit(b)
+        if isinstance(b.op, ast.Add) and isinstance(b.left, ast.Tuple) and isinstance(b.right, ast.Tuple) \
+                and not any(isinstance(e, ast.Starred) for e in b.left.elts + b.right.elts):
+            return ast.copy_location(ast.Tuple(elts=list(b.left.elts) + list(b.right.elts), ctx=ast.Load()), b)
+        return b
+
+
 class _PruneConstantIfs(ast.NodeTransformer):
     """`if True:` / `if False:` / `if 0:` (a literal test): replaced by the arm that runs.  `while False:` is dropped."""
 
@@ -1340,8 +1427,14 @@ def normalize(tree):
     _expand_module_constants(tree)
     _PruneConstantIfs().visit(tree)
     _hoist_scalar_helper_calls(tree)
+    for fn_ in ast.walk(tree):
+        if isinstance(fn_, ast.FunctionDef):
+            _merge_dict_item_stores(fn_.body)
+    _FoldDisplays().visit(tree)
     inl = Inliner(tree)
     n = inl.run()
+    _FoldDisplays().visit(tree)
+    ast.fix_missing_locations(tree)
     tree._inlined_helpers = set(inl.inlined_names)
     consts = _module_const_tuples(tree)
     for node in ast.walk(tree):
@@ -1368,6 +1461,7 @@ def normalize(tree):
                 node.body, c = _inline_adjacent_single_use(node.body, _name_uses(node))
                 if not c:
                     break
+            _FoldDisplays().visit(node)       # displays exposed by the propagation (`*tuple(xs)`, `(a, b) + (c,)`)
             _static_expand(node, consts)      # getattr(x, 'lit') / **{...} exposed by the propagation
     # a private helper whose every use was inlined is dead for the analysis: its body is judged where it now runs
     dropped = set()
